@@ -49,6 +49,15 @@ def proofs(ctx):
         if len(gate) != 1 or ast.unparse(gate[0].test) != "self._updated and self.idle" or "self.run_auto_verify()" not in ast.unparse(gate[0]) or "run_auto_verify" in "".join(ast.unparse(n) for n in ui if n is not gate[0]):
             raise T.Untranslatable("UNTRANSLATABLE: update_idle no longer runs auto-verify only under `self._updated and self.idle`")
         ctx.obligations.append("walker-lifecycle")
+        # the gate itself, re-translated and tied to Model/Gate.v
+        atoms = {"self._updated": ("updated", "bool"), "self.idle": ("idle_now", "bool"), "self.db.auto_verify": ("auto_verify", "Z")}
+        upt = [ast.unparse(x.test) for x in T.if_tests(T.find_func(upd, "UpdateableNode.update"))]
+        if upt.count("idle and do_update") != 1:
+            raise T.Untranslatable(f"UNTRANSLATABLE: UpdateableNode.update has no single `idle and do_update` test: {upt}")
+        d = [T.nth_test(upd, "UpdateableNode.update", upt.index("idle and do_update"), {"idle": "bool", "do_update": "bool"}, "g_update_runs", ["idle", "do_update"]),
+             T.nth_test(upd, "UpdateableNode.update_idle", 0, {}, "g_idle_work", ["updated", "idle_now"], atoms=atoms, expect_count=2),
+             T.nth_test(upd, "UpdateableNode.update_idle", 1, {}, "g_auto_verify_on", ["auto_verify"], atoms=atoms)]
+        core.check_tie(ctx, {"Gen_gate": T.HEADER + "\n".join(d) + "\n"}, ["Tie_C19"])
     except T.Untranslatable as e:
         ctx.broke("translator", "auto-verify walker lifecycle", str(e))
     core.check_property_file(ctx, "C19.v")
@@ -115,6 +124,9 @@ def daemon_runs(ctx, cases, nworlds):
             cases.append(term(live, c[1], c[2], c[3]))
         if k == 0:
             ctx.sample(rp)
+
+
+GATE_CASES = []
 
 
 def gate_runs(ctx, cases, nruns):
@@ -185,6 +197,7 @@ def gate_runs(ctx, cases, nruns):
                 w.ArchiveFileCopy.update(has_file="Y", last_update=old).where(w.ArchiveFileCopy.node == row).execute()
                 expect = 1 if (idle0 and kind != "cancelled" and idle1) else 0
                 hist.append((kind, idle0, idle1, made))
+                GATE_CASES.append(ctup(cbool(idle0), cbool(kind != "cancelled"), cbool(idle1), cz(kk), cbool(made > 0)))
                 ctx.count("gate-iterations")
                 rp = {"family": "gate", "copies": n, "auto_verify": kk, "iterations": [list(h) for h in hist]}
                 if made != expect:
@@ -492,7 +505,11 @@ def explore(ctx):
         static_runs(ctx, cases, 8, 10)
         dynamic_runs(ctx, cases, 2500)
     daemon_runs(ctx, cases, 12 if ctx.quick() else 300)
+    GATE_CASES.clear()
     gate_runs(ctx, cases, 25 if ctx.quick() else 600)
+    bad = core.run_cases(ctx, "gate", "Corr.C19", "gcase", "gcheck", list(GATE_CASES), shard=2000, extra_imports=("Model.Gate",))
+    for i in bad[:3]:
+        ctx.broke("correspondence", f"auto-verify gate: model and implementation differ on (idle at start, update not cancelled, idle after, auto_verify, batch made) = {GATE_CASES[i]}")
     bad = core.run_cases(ctx, "walker", "Corr.C19", "case", "check", cases, shard=500)
     for i in bad[:3]:
         ctx.broke("correspondence", f"walker: model and implementation differ on case {cases[i]}")
